@@ -18,6 +18,7 @@ from numba_scfg.core.datastructures.scfg import SCFG, NameGenerator  # noqa: E40
 from numba_scfg.core.datastructures import basic_block as bb  # noqa: E402
 
 LEVEL = "proof"
+EXTRA_PROPS_FILES = ["Scfg/Props/C18Reserve.lean"]
 NS = {"b": "new_block_name", "r": "new_region_name", "v": "new_var_name"}
 
 
@@ -50,6 +51,40 @@ def ng_corr(rng, table, n):
         if len(set(lib)) != len(lib):
             dup.append({"requests": reqs, "start": pre, "impl": names})
     return bad, dup, len(lines)
+
+
+def reserve_corr(rng, table, n):
+    """real NameGenerator.reserve vs the Lean model (Scfg/Model/Reserve.lean) on names of generated
+    shape, near misses and arbitrary names"""
+    kinds = sorted({k for _, k in table}) + ["a", "a_block_1", "x_var_0", "k9", "b_region_2"]
+    alphabet = "ab_019"
+    drv = common.Driver()
+    lines, exp = [], []
+    for _ in range(n):
+        ng = NameGenerator()
+        pre = {}
+        for _ in range(rng.randint(0, 3)):
+            pre[rng.choice(kinds)] = rng.randint(0, 12)
+        ng.kinds.update(pre)
+        names = []
+        for _ in range(rng.randint(1, 8)):
+            k, i = rng.choice(kinds), rng.choice([0, 1, 2, 5, 9, 10, 11, 12, 13, 99, 100])
+            shape = rng.randint(0, 9)
+            nm = [f"{k}_block_{i}", f"{k}_region_{i}", f"__scfg_{k}_var_{i}__", f"{k}_block_{i}_", f"{k}_blok_{i}",
+                  f"_block_{i}", f"__scfg__var_{i}__", f"{k}_block_", f"{k}_block_0{i}",
+                  "".join(rng.choice(alphabet) for _ in range(rng.randint(1, 10)))][shape]
+            names.append(nm)
+            ng.reserve(nm)
+        ngline = ",".join(f"{k}={v}" for k, v in pre.items()) or "-"
+        lines.append(f"RSV {ngline} " + ",".join(names))
+        exp.append((dict(ng.kinds), names, pre))
+    out = drv.run(lines)
+    bad = []
+    for rep, (kinds_after, names, pre) in zip(out, exp):
+        gk = dict((kv.split("=")[0], int(kv.split("=")[1])) for kv in rep.split(",")) if rep not in ("-", "") and "=" in rep else {}
+        if gk != kinds_after or list(gk) != list(kinds_after):
+            bad.append({"names": names, "start": pre, "impl": kinds_after, "model": rep})
+    return bad, len(lines)
 
 
 GEN_NAMES = ["synth_asign_block_0", "synth_asign_block_1", "synth_head_block_0", "synth_exit_latch_block_0",
@@ -186,6 +221,11 @@ def run(ctx):
         path = common.write_replay("C18", {"property": "C18", "kind": "correspondence-broken",
                                            "correspondence": "Scfg.Model.NameGen vs NameGenerator", **bad[0]})
         broken.append({"signature": {"kind": "correspondence"}, "replay": path, "nfi": True, "what": "NameGenerator model mismatch"})
+    rbad, nres = reserve_corr(rng, set(table), 400 * common.boost() if quick else 20000)
+    if rbad:
+        path = common.write_replay("C18", {"property": "C18", "kind": "correspondence-broken",
+                                           "correspondence": "Scfg.Model.NameGen.reserve vs NameGenerator.reserve", **rbad[0]})
+        broken.append({"signature": {"kind": "correspondence-reserve"}, "replay": path, "nfi": True, "what": "reserve model mismatch"})
     nclob, cfails = clobber_runs(rng, 600 * common.boost() if quick else 20000)
     if cfails:
         f = min(cfails, key=lambda x: len(x["succ"]))
@@ -208,6 +248,7 @@ def run(ctx):
         "samples": [{"table_from_source": table}, {"request_sites": [s for _, _, s in sites][:6]}],
         "name_request_table": table, "prefixesOK_on_source_table": pref == "1",
         "ng_sequences": nseq, "ng_model_mismatches": len(bad),
+        "reserve_sequences": nres, "reserve_model_mismatches": len(rbad),
         "clobber_runs": nclob, "clobber_failures": len(cfails),
         "reload_runs": nrel, "reload_failures": len(rfails), "reload_io_aborts": dict(io_aborts),
         "traces_validated_against_impl": nseq - len(bad),
